@@ -552,8 +552,13 @@ func ruleR13(p *Prog) []Ob {
 				case logSuffix == "":
 					ob.Status, ob.Msg = Undecided, "log suffix unknown"
 				case pc.kind == "concat":
+					_, isStore := at.(*ssa.Store)
 					if strings.HasSuffix(pc.suf, logSuffix) || pc.suf == "" {
 						ob.Status, ob.Msg = Violated, fmt.Sprintf("temp file name ends in %q: Find would adopt it as a segment", logSuffix)
+					} else if isStore && !p.staleTempRemovedByUsers(fn) {
+						// a deterministic name kept in a Segment value: whoever opens it appends to it
+						ob.Props = append(ob.Props, "C06")
+						ob.Status, ob.Msg = Violated, fmt.Sprintf("the temporary log of a rewrite gets the fixed name <segment log> + %q and is opened in append mode without a stale one being removed first: what a crashed earlier rewrite left there is kept in front of the new records and renamed in with them", pc.suf)
 					} else {
 						ob.Status, ob.Msg = Discharged, fmt.Sprintf("temp name = <segment log> + %q, which does not end in %q", pc.suf, logSuffix)
 					}
@@ -1074,4 +1079,45 @@ func (p *Prog) tempNextToSegment(v ssa.Value) bool {
 		}
 	}
 	return true
+}
+
+// staleTempRemovedByUsers: every function that calls mk (which builds a Segment with a fixed temporary
+// name) and opens that segment's log for writing removes the name first.
+func (p *Prog) staleTempRemovedByUsers(mk *ssa.Function) bool {
+	users := 0
+	for _, fn := range p.Funcs {
+		if !srcFunc(fn) {
+			continue
+		}
+		calls := false
+		for _, b := range fn.Blocks {
+			for _, ins := range b.Instrs {
+				if c, ok := ins.(*ssa.Call); ok && c.Common().StaticCallee() == mk {
+					calls = true
+				}
+			}
+		}
+		if !calls {
+			continue
+		}
+		ops := p.fsOps(fn)
+		for i := range ops {
+			o := &ops[i]
+			if o.op != "OPENW" || o.a.kind != "seg" || o.a.fld != "Log" {
+				continue
+			}
+			users++
+			removed := false
+			for j := range ops {
+				r := &ops[j]
+				if r.op == "REMOVE" && r.a.kind == "seg" && r.a.fld == "Log" && r.a.seg == o.a.seg && instrDominates(r.call, o.call) {
+					removed = true
+				}
+			}
+			if !removed {
+				return false
+			}
+		}
+	}
+	return users > 0
 }
